@@ -179,7 +179,7 @@ def main_check(pid, tier, seed):
         inconc.append('evidence does not validate: ' + err)
     # evidence under /verif/evidence is only ever written by runs against /repo itself; a run against a scratch
     # copy (PV_REPO=<patched worktree>: self-test, seeded changes) keeps its evidence in the private scratch directory
-    edir = EVIDENCE_DIR if os.path.realpath(repo) == '/repo' else (os.environ.get('PV_SCRATCH') or tempfile.gettempdir())
+    edir = EVIDENCE_DIR if os.path.realpath(repo) == '/repo' and not os.environ.get('PV_NO_EVIDENCE') else (os.environ.get('PV_SCRATCH') or tempfile.gettempdir())
     os.makedirs(edir, exist_ok=True)
     with open(os.path.join(edir, f'{pid}.json'), 'w') as f:
         json.dump(ev, f, indent=1, sort_keys=True, default=str)
